@@ -204,12 +204,15 @@ def lint_case(draw):
         paths.add(instantiate(draw, toks))
     paths.add(draw(st.text(alphabet="ab/.*", min_size=1, max_size=6)))
     paths.add("." + draw(st.sampled_from(["a", "ab/a", "a/b.a"])))
-    return g, sorted(paths), draw(st.sampled_from([(), (), ("--root", "."), ("--root", "../proj")]))
+    # layout: the REUSE.toml under test at the root, or in a sub-directory between unrelated sibling REUSE.toml files
+    # (globs are relative to the directory of their own REUSE.toml)
+    return g, sorted(paths), draw(st.sampled_from([(), (), ("--root", "."), ("--root", "../proj")])), draw(st.sampled_from(["root", "nested", "nested-deep"]))
 
 
 def check_lint(ctx, case):
     glob, paths = case[0], case[1]
     root_spelling = case[2] if len(case) > 2 else ()
+    layout = case[3] if len(case) > 3 else "root"
     nf, wf, spec = G.compile_glob(glob)
     if not spec or "'" in glob or "\n" in glob:
         ctx.excluded["unspecified-glob"] += 1
@@ -222,26 +225,33 @@ def check_lint(ctx, case):
     d = ctx.fresh_dir() / "proj"
     d.mkdir()
     try:
-        files = {p: "x\n" for p in paths}
-        files["REUSE.toml"] = (
+        base = {"root": "", "nested": "mid/", "nested-deep": "mid/low/"}[layout]
+        files = {base + p: "x\n" for p in paths}
+        files[base + "REUSE.toml"] = (
             "version = 1\n[[annotations]]\npath = '%s'\nSPDX-FileCopyrightText = 'G'\nSPDX-License-Identifier = 'MIT'\n" % glob
         )
+        if layout != "root":
+            other = "version = 1\n[[annotations]]\npath = 'nothing-here-%s'\nSPDX-FileCopyrightText = 'Other'\nSPDX-License-Identifier = 'ISC'\n"
+            for k, od in enumerate(["", "+first/", "0first/", "zlast/", "mid/+in/", "mid/zin/"] + (["mid/", "mid/low/zz/"] if layout == "nested-deep" else [])):
+                if od != base:
+                    files[od + "REUSE.toml"] = other % k
+                    files.setdefault(od + "other.txt", "x\n")
         tree.write_tree(d, files)
         res, data = tree.lint_json(d, extra=tuple(root_spelling))
         if data is None:
             ctx.fail({"glob": glob, "paths": paths}, f"lint --json failed on a valid REUSE.toml: {res.brief()}")
         any_match = any_miss = False
         for p in paths:
-            ent = tree.file_entry(data, p)
+            ent = tree.file_entry(data, base + p)
             if ent is None:
                 continue  # coverage is C03's subject
-            r = bool(ent["copyrights"])
+            r = any(c["value"] == "G" for c in ent["copyrights"])
             n, w = nf(p) is not None, wf(p) is not None
             judge(ctx, [glob], p, r, n, w)
             any_match |= r
             any_miss |= not r
         special = ("*" in glob) or ("\\" in glob)
-        ctx.count({"lint-glob": glob, "paths": paths}, nontrivial=special and any_match and any_miss, labels=["via-lint", f"via-lint:root={' '.join(root_spelling) or 'default'}"],
+        ctx.count({"lint-glob": glob, "paths": paths}, nontrivial=special and any_match and any_miss, labels=["via-lint", f"via-lint:root={' '.join(root_spelling) or 'default'}", f"via-lint:layout={layout}"],
                   sample={"glob": glob, "paths": paths, "via": "REUSE.toml + lint --json"})
     finally:
         tree.rmtree(d.parent)
